@@ -188,7 +188,7 @@ class DefGen:
                         f["type"] = ("struct " if rng.random() < 0.2 and s["kind"] == "struct" else "") + s["name"]
                         fdyn = self.dynamic[s["name"]]
                         sub_allint = self.allint[s["name"]]
-                        if sw["structarray"] and rng.random() < 0.3:
+                        if sw["structarray"] and rng.random() < 0.5:
                             if not fdyn:
                                 f["dims"] = [rng.randint(0, 3)]
                                 if sw["null"] and sub_allint and not self.fixed_only and rng.random() < 0.3:
@@ -450,3 +450,105 @@ def shrink_defs(defs):
         d = copy.deepcopy(defs)
         del d["defines"][i]
         yield d
+
+
+# ---------------------------------------------------------------- AST queries (used by op generators; never by oracles
+# that claim to check layout)
+
+CANON = {a: t for t, al in ALIASES.items() for a in al}
+INT_RANGE = {}
+for _t, _s in SIZES.items():
+    if _t.startswith("uint"):
+        INT_RANGE[_t] = (0, (1 << (8 * _s)) - 1)
+    elif _t.startswith("int"):
+        INT_RANGE[_t] = (-(1 << (8 * _s - 1)), (1 << (8 * _s - 1)) - 1)
+
+
+def classify(defs, f):
+    """-> (kind, base) for a field ignoring ptr/dims/bits: kind in int|float|char|wchar|leb|enum|struct|union."""
+    if f["inline"] is not None:
+        return f["inline"]["kind"], f["inline"]
+    t = f["type"]
+    if t.startswith("struct "):
+        t = t[7:]
+    t = CANON.get(t, t)
+    for e in defs["enums"]:
+        if e["name"] == t:
+            return "enum", e
+    for s in defs["structs"]:
+        if s["name"] == t:
+            return s["kind"], s
+    if t in INT_RANGE:
+        return "int", t
+    if t in FLOATS:
+        return "float", t
+    if t in LEB:
+        return "leb", t
+    return t, t  # char / wchar
+
+
+def leaf_paths(defs, sd, prefix=(), depth=0, through_union=False):
+    """Yield assignable locations inside struct `sd`: dicts {path, kind, base, dims, ptr, bits, in_union}."""
+    if depth > 4:
+        return
+    for f in sd["fields"]:
+        kind, base = classify(defs, f)
+        name = f["name"]
+        if name is None:
+            # anonymous member: its fields are folded into the parent
+            if kind in ("struct", "union"):
+                yield from leaf_paths(defs, base, prefix, depth + 1, through_union or kind == "union" or sd["kind"] == "union")
+            continue
+        path = prefix + (name,)
+        info = {"path": list(path), "kind": kind, "base": base if isinstance(base, str) else base.get("name"),
+                "dims": f["dims"], "ptr": f["ptr"], "bits": f["bits"], "in_union": through_union or sd["kind"] == "union",
+                "base_sd": base if kind in ("struct", "union") else None}
+        yield info
+        if kind in ("struct", "union") and not f["dims"] and not f["ptr"]:
+            yield from leaf_paths(defs, base, path, depth + 1, through_union or kind == "union" or sd["kind"] == "union")
+
+
+def gen_value(rng, defs, info):
+    """A JSON-able value spec fitting the location `info` (always inside the field's range)."""
+    kind = info["kind"]
+    if info["ptr"]:
+        base = ("ptr", None)
+    if info["dims"]:
+        return None
+    if info["ptr"]:
+        return {"k": "int", "v": rng.choice([0, 1, 2, 0x10, 0xFF])}
+    if kind == "int":
+        lo, hi = INT_RANGE[info["base"]]
+        if info["bits"]:
+            lo, hi = 0, (1 << info["bits"]) - 1
+        return {"k": "int", "v": rng.choice([lo, hi, 0, 1, rng.randint(lo, hi), rng.randint(max(lo, -100), min(hi, 100))])}
+    if kind == "leb":
+        return {"k": "int", "v": rng.choice([0, 1, 127, 128, 300, 2 ** 20]) * (-1 if info["base"] == "ileb128" and rng.random() < 0.4 else 1)}
+    if kind == "float":
+        return {"k": "float", "v": rng.choice([0.0, 1.0, -2.5, 0.5, 1024.0])}
+    if kind == "char":
+        return {"k": "bytes", "hex": bytes([rng.choice([0, 0x41, 0x7A, 0xFF])]).hex()}
+    if kind == "wchar":
+        return {"k": "str", "s": rng.choice(["\x00", "A", "é", "中"])}
+    if kind == "enum":
+        e = next(e for e in defs["enums"] if e["name"] == info["base"])
+        lo, hi = INT_RANGE[e["type"]]
+        if info["bits"]:
+            lo, hi = 0, (1 << info["bits"]) - 1
+        return {"k": "enum", "name": e["name"], "v": rng.choice([max(lo, 0), 1, 2, min(hi, 100), rng.randint(max(lo, 0), min(hi, 255))])}
+    return None
+
+
+def make_value(cs, spec):
+    k = spec["k"]
+    if k == "int":
+        return spec["v"]
+    if k == "float":
+        return spec["v"]
+    if k == "bytes":
+        return bytes.fromhex(spec["hex"])
+    if k == "str":
+        return spec["s"]
+    if k == "enum":
+        return getattr(cs, spec["name"])(spec["v"])
+    raise ValueError(k)
